@@ -213,8 +213,9 @@ macro_rules! hmc_cfg {
                 if d1 != d2 || v1 != v2 {
                     $why.push("run_progress draws differ from run() on a clone of the sampler".to_string());
                 }
-                let f32v: Vec<f32> = draws.into_data().convert::<f32>().to_vec::<f32>().unwrap();
-                let arr = Array3::from_shape_vec((d1[0], d1[1], d1[2]), f32v).unwrap();
+                // diagnostics "computed from the returned draws": in the draws' own precision (f64 holds f32 and f64 draws exactly)
+                let f64v: Vec<f64> = draws.into_data().convert::<f64>().to_vec::<f64>().unwrap();
+                let arr = Array3::from_shape_vec((d1[0], d1[1], d1[2]), f64v).unwrap();
                 if !same_stats(&stats, &RunStats::from(arr.view())) {
                     $why.push("diagnostics differ from those of the returned draws".to_string());
                 }
@@ -253,8 +254,9 @@ macro_rules! nuts_cfg {
                 if !ok {
                     $why.push("run_progress draws are not run()'s trajectory shifted by one draw".to_string());
                 }
-                let f32v: Vec<f32> = draws.into_data().convert::<f32>().to_vec::<f32>().unwrap();
-                let arr = Array3::from_shape_vec((d1[0], d1[1], d1[2]), f32v).unwrap();
+                // diagnostics "computed from the returned draws": in the draws' own precision (f64 holds f32 and f64 draws exactly)
+                let f64v: Vec<f64> = draws.into_data().convert::<f64>().to_vec::<f64>().unwrap();
+                let arr = Array3::from_shape_vec((d1[0], d1[1], d1[2]), f64v).unwrap();
                 if !same_stats(&stats, &RunStats::from(arr.view())) {
                     $why.push("diagnostics differ from those of the returned draws".to_string());
                 }
